@@ -55,6 +55,17 @@ func TestVerifCSWorker(t *testing.T) {
 		dl = time.Unix(s, 0)
 	}
 	zzmc.EarlyFail = emit
+	// watchdog: an execution that makes no progress for 90 s of wall clock is spinning outside the scheduler's
+	// control (a busy loop after teardown); it is reported and this process gives up
+	go func() {
+		for {
+			time.Sleep(5 * time.Second)
+			if prefix, at := zzmc.Progress(); !at.IsZero() && time.Since(at) > 90*time.Second {
+				emit(zzmc.Failure{Msg: "hang: one execution did not finish within 90 s of wall clock (a busy loop outside the scheduler's control)", Choices: prefix})
+				os.Exit(3)
+			}
+		}
+	}()
 	zzmc.HorizonExit = func(zzmc.Failure) { os.Exit(3) }
 	st := zzmc.Explore(t, mk(), zzmc.Options{Bound: bound, Shard: shard, Shards: shards, MaxExecs: maxExecs, Deadline: dl})
 	mu.Lock()
